@@ -165,6 +165,13 @@ def fmt_byte(b):
 
 # ---------------------------------------------------------------------------------------------
 
+def _fold_idx(t):
+    """index key: constant expressions (on a path the token length is a constant) folded to their value"""
+    from binser import const_fold
+    c = const_fold(t)
+    return ("const", c, "usize") if c is not None else norm(t)
+
+
 class Encoder:
     """Everything the rules need from one `compress` function."""
 
@@ -349,7 +356,7 @@ class Encoder:
             elif e["k"] == "write":
                 pl = e["place"]
                 if pl[0] == "index":
-                    key = ("idx", norm(pl[2]))
+                    key = ("idx", _fold_idx(pl[2]), norm(strip_refs(pl[1])))
                     val = e["val"]
                     prev = [s for s in slots if s[0] == key]
                     if val[0] == "bin" and val[1] == "BitOr" and norm(val[2]) == norm(pl):
@@ -371,7 +378,7 @@ class Encoder:
                     if is_last and slots:
                         slots[-1][1] = ("bin", "BitOr", slots[-1][1], x)
                     elif is_first:
-                        slots.append([("idx", ("const", 0, "usize")), ("bin", "BitOr", ("const", 0, "u8"), x), "merge-into-existing"])
+                        slots.append([("idx", ("const", 0, "usize"), norm(strip_refs(pl[1][2][0]))), ("bin", "BitOr", ("const", 0, "u8"), x), "merge-into-existing"])
                     else:
                         slots.append([("unknown", fmt(idx)[:40]), val])
         return slots
